@@ -319,8 +319,11 @@ class Envelope:
         outcomes = {}
         reshape_shape = []
         if self.state is None:
-            for s in [self.polarization, self.fock]:
-                out = s.measure()
+            to_measure: List[Any] = [self.polarization, self.fock]
+            if separate_measurement and len(states) == 1:
+                to_measure = [states[0]]
+            for s in to_measure:
+                out = s.measure(separate_measurement=True, destructive=destructive)
                 for k, v in out.items():
                     outcomes[k] = v
         else:
